@@ -6,7 +6,10 @@
    (ii)  assign / ps_constraints         = the MIP rows built by priceable() as a decidable predicate
    (iii) check_ps_eps / check_witness    = exact (eps = 0) or eps-tolerant check of a price system
    (iv)  check_farkas, ps_rows           = Farkas certificate checker and the linear system
-                                           "there is a price system for W" *)
+                                           "there is a price system for W"
+   Every function has a general form [..._g] with a parameter [rel : option relax] = the `relaxation=`
+   argument of the library (None, or a relaxation class of priceability_relaxation.py together with the
+   value(s) of its beta variable(s)); the plain names are the instances rel = None. *)
 From PB Require Export Spec.PriceSystem.
 From PB Require Import Generated.Anchors.
 From Coq Require Import Qround.
@@ -29,8 +32,11 @@ Definition round_half_even (t : Q) : Z :=
 Definition rnd (x : Q) : Q :=
   Qred (inject_Z (round_half_even (x * inject_Z rscale)) / inject_Z rscale).
 
-(* utils.round_cmp(a, b, CHECK_ROUND_PRECISION) = round(a, p) - round(b, p) *)
-Definition round_cmp (a b : Q) : Q := rnd a - rnd b.
+(* utils.round_cmp(a, b, CHECK_ROUND_PRECISION): round(a, p) - round(b, p), or -- after the repair that
+   stops float noise at a x.xx5 boundary from turning into 0.01 -- round(a - b, p); which of the two the
+   source has now is re-read on every run (Generated/Anchors.v) *)
+Definition round_cmp (a b : Q) : Q :=
+  if Z.eqb ANCHOR_ROUND_CMP_MODE 1 then rnd (a - b) else rnd a - rnd b.
 
 (* payments as a table: one row per voter, one entry per project rank *)
 Definition pay_of (P : list (list Q)) : payfun := fun i c => nth c (nth i P []) 0.
@@ -38,10 +44,28 @@ Definition pay_of (P : list (list Q)) : payfun := fun i c => nth c (nth i P []) 
 Definition not_selected (I : inst) (W : list proj) : list proj :=
   filter (fun c => negb (memb c W)) (all_projects I).
 
-(* validate_price_system(instance, profile, W, b, pf, stable, exhaustive) with relaxation=None:
-   [return not errors], one conjunct per error list, in source order *)
-Definition validate_ps (I : inst) (A : profile) (W : list proj) (b : Q) (P : list (list Q))
-           (stable exh : bool) : bool :=
+(* ---- relaxations (priceability_relaxation.py); the constants are re-read from the source on every run *)
+(* Relaxation.__init__: self.INF = instance.budget_limit * 10 *)
+Definition RELAX_INF_FACTOR : Q := inject_Z ANCHOR_RELAX_INF_FACTOR.
+Definition relax_INF (I : inst) : Q := budget I * RELAX_INF_FACTOR.
+(* MinAddOffset.BUDGET_FRACTION = 0.025 *)
+Definition RELAX_FRACTION : Q := ANCHOR_RELAX_FRACTION_NUM # ANCHOR_RELAX_FRACTION_DEN.
+(* MinAddVector.add_beta: beta[c] <= (1 - x_c) * self.INF and (x_c - 1) * self.INF <= beta[c] *)
+Definition RELAX_VEC_CAP_FACTOR : Q := inject_Z ANCHOR_RELAX_VEC_CAP_FACTOR.
+Definition relax_cap (I : inst) : Q := budget I * RELAX_VEC_CAP_FACTOR.
+
+(* the right-hand side of the stability condition: c.cost, or relaxation.get_relaxed_cost(c) *)
+Definition rcost (I : inst) (rel : option relax) (c : proj) : Q :=
+  match rel with
+  | None => cost I c
+  | Some R => relaxed_cost I R c
+  end.
+
+(* validate_price_system(instance, profile, W, b, pf, stable, exhaustive, relaxation):
+   [return not errors], one conjunct per error list, in source order.  The relaxation only enters the
+   stability condition S5 (line "cost = c.cost if relaxation is None else relaxation.get_relaxed_cost(c)"). *)
+Definition validate_ps_g (I : inst) (A : profile) (W : list proj) (b : Q) (P : list (list Q))
+           (stable exh : bool) (rel : option relax) : bool :=
   let pay := pay_of P in
   let C := all_projects I in
   let N := voters A in
@@ -65,11 +89,14 @@ Definition validate_ps (I : inst) (A : profile) (W : list proj) (b : Q) (P : lis
       else (* S5 *) forallb (fun c =>
              negb (Qltb 0 (round_cmp
                      (Qsum (map (fun i => Qmax (max_payment i) (leftover_ i)) (supporters A c)))
-                     (cost I c)))) NW).
+                     (rcost I rel c)))) NW).
+
+Definition validate_ps (I : inst) (A : profile) (W : list proj) (b : Q) (P : list (list Q))
+           (stable exh : bool) : bool := validate_ps_g I A W b P stable exh None.
 
 (* ------------------------------------------------------------------------------------------------ *)
-(* (ii) the MIP built by priceable(instance, profile, budget_allocation, stable=, exhaustive=)
-        (voter_budget / payment_functions / relaxation left at None) *)
+(* (ii) the MIP built by priceable(instance, profile, budget_allocation, stable=, exhaustive=, relaxation=)
+        (voter_budget / payment_functions left at None) *)
 
 Record assign := mkAsg {
   a_b : Q;                (* voter_budget *)
@@ -94,8 +121,27 @@ Definition binaryb (I : inst) (a : assign) : bool :=
 Definition alloc_of (I : inst) (a : assign) : list proj :=
   filter (fun c => Qleb (99 # 100) (xv a c)) (all_projects I).
 
-Definition ps_constraints (I : inst) (A : profile) (alloc : option (list proj)) (stable exh : bool)
-           (a : assign) : bool :=
+(* relaxation.add_beta(mip_model): the beta variable(s) -- here their values are carried by [R] -- with
+   their bounds and the rows that only involve them and x *)
+Definition relax_rows (I : inst) (R : relax) (x : proj -> Q) : bool :=
+  let C := all_projects I in
+  match R with
+  | RMul g => Qleb 0 g                                         (* add_var(name="beta"): lb = 0 *)
+  | RAdd g => Qleb (- relax_INF I) g                           (* lb = -INF *)
+  | RVec l => forallb (fun c => Qleb (- relax_INF I) (beta_at l c)
+                                && Qleb (beta_at l c) ((1 - x c) * relax_cap I)
+                                && Qleb ((x c - 1) * relax_cap I) (beta_at l c)) C
+  | RVecPos l => forallb (fun c => Qleb 0 (beta_at l c)) C
+  | ROff g l => Qleb (- relax_INF I) g
+                && forallb (fun c => Qleb 0 (beta_at l c)) C
+                && Qleb (Qsum (map (beta_at l) C)) (RELAX_FRACTION * budget I)
+  end.
+(* the big-M of the stability rows: INF of priceable(), or relaxation.INF *)
+Definition s5_inf (I : inst) (rel : option relax) : Q :=
+  match rel with None => bigM I | Some _ => relax_INF I end.
+
+Definition ps_constraints_g (I : inst) (A : profile) (alloc : option (list proj)) (stable exh : bool)
+           (rel : option relax) (a : assign) : bool :=
   let C := all_projects I in
   let N := voters A in
   let INF := bigM I in
@@ -131,8 +177,14 @@ Definition ps_constraints (I : inst) (A : profile) (alloc : option (list proj)) 
                   Qleb (Qsum (map (auxv a) (supporters A c))) (cost I c + x c * INF)) C
       else forallb (fun i => forallb (fun c => Qleb (p i c) (auxv a i)) C
                              && Qleb (b - spent_ i) (auxv a i)) N
-           (* S5 *) && forallb (fun c =>
-                  Qleb (Qsum (map (auxv a) (supporters A c))) (cost I c + x c * INF)) C).
+           (* S5: relaxation.add_stability_constraint when a relaxation is given *)
+           && forallb (fun c =>
+                  Qleb (Qsum (map (auxv a) (supporters A c))) (rcost I rel c + x c * s5_inf I rel)) C)
+  (* relaxation.add_beta *)
+  && match rel with None => true | Some R => relax_rows I R x end.
+
+Definition ps_constraints (I : inst) (A : profile) (alloc : option (list proj)) (stable exh : bool)
+           (a : assign) : bool := ps_constraints_g I A alloc stable exh None a.
 
 (* the assignment a price system (b, pay) for W induces: x = indicator of W, r = leftovers (plain) or
    m = max(largest payment, leftover) (stable) *)
@@ -152,8 +204,8 @@ Fixpoint nodup_natb (l : list nat) : bool :=
 Definition wf_allocb (I : inst) (W : list proj) : bool :=
   nodup_natb W && forallb (fun c => Nat.ltb c (nproj I)) W.
 
-Definition check_ps_eps (eps : Q) (I : inst) (A : profile) (W : list proj) (b : Q) (P : list (list Q))
-           (stable exh : bool) : bool :=
+Definition check_ps_eps_g (eps : Q) (I : inst) (A : profile) (W : list proj) (b : Q) (P : list (list Q))
+           (stable exh : bool) (rel : option relax) : bool :=
   let pay := pay_of P in
   let C := all_projects I in
   let N := voters A in
@@ -167,12 +219,17 @@ Definition check_ps_eps (eps : Q) (I : inst) (A : profile) (W : list proj) (b : 
                                 && Qleb (cost I c) (paid_for A pay c + eps)) W
   (* C4  *) && forallb (fun c => Qleb (paid_for A pay c) eps && Qleb (- eps) (paid_for A pay c)) NW
   && (if stable
-      then forallb (fun c => Qleb (Qsum (map (stable_claim I b pay) (supporters A c))) (cost I c + eps)) NW
+      then forallb (fun c => Qleb (Qsum (map (stable_claim I b pay) (supporters A c))) (rcost I rel c + eps)) NW
       else forallb (fun c => Qleb (Qsum (map (leftover I b pay) (supporters A c))) (cost I c + eps)) NW).
 
+Definition check_ps_eps (eps : Q) (I : inst) (A : profile) (W : list proj) (b : Q) (P : list (list Q))
+           (stable exh : bool) : bool := check_ps_eps_g eps I A W b P stable exh None.
+
+Definition check_witness_g (I : inst) (A : profile) (W : list proj) (b : Q) (P : list (list Q))
+           (stable exh : bool) (rel : option relax) : bool :=
+  wf_allocb I W && check_ps_eps_g 0 I A W b P stable exh rel.
 Definition check_witness (I : inst) (A : profile) (W : list proj) (b : Q) (P : list (list Q))
-           (stable exh : bool) : bool :=
-  wf_allocb I W && check_ps_eps 0 I A W b P stable exh.
+           (stable exh : bool) : bool := check_witness_g I A W b P stable exh None.
 
 (* ------------------------------------------------------------------------------------------------ *)
 (* (iv) Farkas certificates.  A linear form is a list of (coefficient, variable); a row (e, r) reads
@@ -229,29 +286,77 @@ Arguments nodupv {V} veqb l.
 Arguments check_farkas {V} veqb vars rows ys.
 
 (* variables of the system "there is a price system for W" *)
-Inductive pvar := VB | VP (i : nat) (c : proj) | VM (i : nat).
+(* VB voter budget, VP i c payment, VM i stability claim m_i; VG / VC c: the global / per-project beta of a relaxation *)
+Inductive pvar := VB | VP (i : nat) (c : proj) | VM (i : nat) | VG | VC (c : proj).
 Definition pvar_eqb (u v : pvar) : bool :=
   match u, v with
   | VB, VB => true
   | VP i c, VP j d => Nat.eqb i j && Nat.eqb c d
   | VM i, VM j => Nat.eqb i j
+  | VG, VG => true
+  | VC c, VC d => Nat.eqb c d
   | _, _ => false
   end.
 
-Definition ps_vars (I : inst) (A : profile) (stable : bool) : list pvar :=
+Definition ps_vars_g (I : inst) (A : profile) (stable : bool) (k : option rkind) : list pvar :=
   VB :: flat_map (fun i => map (VP i) (all_projects I)) (voters A)
-     ++ (if stable then map VM (voters A) else []).
+     ++ (if stable then map VM (voters A) else [])
+     ++ match k with None => [] | Some _ => VG :: map VC (all_projects I) end.
+Definition ps_vars (I : inst) (A : profile) (stable : bool) : list pvar := ps_vars_g I A stable None.
 
 Definition l_spent (I : inst) (i : nat) : lin pvar := map (fun c => (1, VP i c)) (all_projects I).
 Definition l_paid (A : profile) (c : proj) : lin pvar := map (fun i => (1, VP i c)) (voters A).
 Definition l_left (I : inst) (i : nat) : lin pvar := (1, VB) :: lscale (-1) (l_spent I i).
 
+(* the stability row of project c: sum of the claims of its supporters <= relaxed cost (+ INF if selected),
+   with the beta terms moved to the left-hand side *)
+Definition s5_terms (I : inst) (k : option rkind) (c : proj) : lin pvar :=
+  match k with
+  | None => []
+  | Some KMul => [(- cost I c, VG)]
+  | Some KAdd => [(-1, VG)]
+  | Some KVec => [(-1, VC c)]
+  | Some KVecPos => [(-1, VC c)]
+  | Some KOff => [(-1, VG); (-1, VC c)]
+  end.
+Definition s5_const (I : inst) (k : option rkind) (c : proj) : Q :=
+  match k with Some KMul => 0 | _ => cost I c end.
+Definition s5_row (I : inst) (A : profile) (k : option rkind) (sel : bool) (c : proj) : lrow pvar :=
+  (map (fun i => (1, VM i)) (supporters A c) ++ s5_terms I k c,
+   s5_const I k c + (if sel then relax_INF I else 0)).
+
+(* the rows that the MIP of a relaxation imposes beyond the relaxed price system itself, for the
+   allocation W: stability rows of the SELECTED projects (big-M slack relax_INF), bounds of the beta
+   variables, MinAddVector's forcing rows / cap, MinAddOffset's bound on the sum *)
+Definition range_rows (I : inst) (A : profile) (W : list proj) (k : rkind) : list (lrow pvar) :=
+  let C := all_projects I in
+  map (s5_row I A (Some k) true) W
+  ++ match k with
+     | KMul => [([(-1, VG)], 0)]
+     | KAdd => [([(-1, VG)], relax_INF I)]
+     | KVec => flat_map (fun c => [([(-1, VC c)], relax_INF I);
+                                   ([(1, VC c)], if memb c W then 0 else relax_cap I);
+                                   ([(-1, VC c)], if memb c W then 0 else relax_cap I)]) C
+     | KVecPos => map (fun c => ([(-1, VC c)], 0)) C
+     | KOff => [([(-1, VG)], relax_INF I)] ++ map (fun c => ([(-1, VC c)], 0)) C
+               ++ [(map (fun c => (1, VC c)) C, RELAX_FRACTION * budget I)]
+     end.
+
+(* "objective <= t" *)
+Definition objective_row (I : inst) (k : rkind) (t : Q) : lrow pvar :=
+  match k with
+  | KMul | KAdd | KOff => ([(1, VG)], t)
+  | KVec | KVecPos => (map (fun c => (1, VC c)) (all_projects I), t)
+  end.
+
 (* rows, in this order (the harness builds the same list):
    0 <= b;  P0 (i, c);  C1 (i, c unapproved);  C2 (i);  C3 (c in W: <= and >=);  C4 (c not in W);
    plain: C5 (c not in W)
-   stable: p_ic <= m_i (i, c);  b - spent_i <= m_i (i);  0 <= m_i (i);  S5 (c not in W)
-   [lb]: budget <= n * b   (the "no empty allocation" row of the searched, non-exhaustive call) *)
-Definition ps_rows (I : inst) (A : profile) (W : list proj) (stable lb : bool) : list (lrow pvar) :=
+   stable: p_ic <= m_i (i, c);  b - spent_i <= m_i (i);  0 <= m_i (i);  S5 (c not in W; relaxed under k)
+   [lb]: budget <= n * b   (the "no empty allocation" row of the searched, non-exhaustive call)
+   [k = Some kind, rng]: range_rows *)
+Definition ps_rows_g (I : inst) (A : profile) (W : list proj) (stable lb : bool)
+           (k : option rkind) (rng : bool) : list (lrow pvar) :=
   let C := all_projects I in
   let N := voters A in
   let NW := not_selected I W in
@@ -265,17 +370,49 @@ Definition ps_rows (I : inst) (A : profile) (W : list proj) (stable lb : bool) :
       then flat_map (fun i => map (fun c => ([(1, VP i c); (-1, VM i)], 0)) C) N
            ++ map (fun i => ((-1, VM i) :: l_left I i, 0)) N
            ++ map (fun i => ([(-1, VM i)], 0)) N
-           ++ map (fun c => (map (fun i => (1, VM i)) (supporters A c), cost I c)) NW
+           ++ map (s5_row I A k false) NW
       else map (fun c => (flat_map (l_left I) (supporters A c), cost I c)) NW)
-  ++ (if lb then [([(- Qnat (length A), VB)], - budget I)] else []).
+  ++ (if lb then [([(- Qnat (length A), VB)], - budget I)] else [])
+  ++ match k with
+     | Some kd => if rng then range_rows I A W kd else []
+     | None => []
+     end.
+Definition ps_rows (I : inst) (A : profile) (W : list proj) (stable lb : bool) : list (lrow pvar) :=
+  ps_rows_g I A W stable lb None false.
 
-(* the valuation a price system induces *)
-Definition ps_env (I : inst) (b : Q) (pay : payfun) (v : pvar) : Q :=
+(* the valuation a price system (and the beta values g, bc of a relaxation) induces *)
+Definition ps_env_g (I : inst) (b : Q) (pay : payfun) (g : Q) (bc : proj -> Q) (v : pvar) : Q :=
   match v with
   | VB => b
   | VP i c => pay i c
   | VM i => stable_claim I b pay i
+  | VG => g
+  | VC c => bc c
   end.
+Definition ps_env (I : inst) (b : Q) (pay : payfun) : pvar -> Q := ps_env_g I b pay 0 (fun _ => 0).
+(* beta values of a relaxation as a valuation of VG / VC *)
+Definition relax_g (R : relax) : Q :=
+  match R with RMul g | RAdd g | ROff g _ => g | _ => 0 end.
+Definition relax_bc (R : relax) (c : proj) : Q :=
+  match R with RVec l | RVecPos l | ROff _ l => beta_at l c | _ => 0 end.
+Definition ps_env_rel (I : inst) (b : Q) (pay : payfun) (R : relax) : pvar -> Q :=
+  ps_env_g I b pay (relax_g R) (relax_bc R).
+
+(* what range_rows say about a relaxed price system (b, pay, R): the extra restrictions of the MIP *)
+Definition relax_range (I : inst) (A : profile) (W : list proj) (b : Q) (pay : payfun) (R : relax) : Prop :=
+  (forall c, In c W ->
+     Qsum (map (stable_claim I b pay) (supporters A c)) <= relaxed_cost I R c + relax_INF I)
+  /\ match R with
+     | RMul g => 0 <= g
+     | RAdd g => - relax_INF I <= g
+     | RVec l => forall c, (c < nproj I)%nat ->
+                   - relax_INF I <= beta_at l c
+                   /\ (if memb c W then beta_at l c == 0
+                       else - relax_cap I <= beta_at l c /\ beta_at l c <= relax_cap I)
+     | RVecPos l => forall c, (c < nproj I)%nat -> 0 <= beta_at l c
+     | ROff g l => - relax_INF I <= g /\ (forall c, (c < nproj I)%nat -> 0 <= beta_at l c)
+                   /\ Qsum (map (beta_at l) (all_projects I)) <= RELAX_FRACTION * budget I
+     end.
 
 (* "W has no price system", certified: W is not a feasible (exhaustive) allocation, or the multipliers
    ys refute the linear system *)
@@ -285,3 +422,21 @@ Definition check_no_ps (I : inst) (A : profile) (W : list proj) (stable exh lb :
   negb (Qleb (tcost I W) (budget I))
   || (exh && negb (is_exhaustiveb I W))
   || (Nat.ltb 0 (length A) && check_farkas pvar_eqb (ps_vars I A stable) (ps_rows I A W stable lb) ys).
+
+(* relaxations.  (1) "W has no relaxed price system of class k at all" (whatever the betas): only the
+   rows of the relaxed price system itself are used (rng = false).
+   (2) "no solution of the relaxed MIP selecting W has objective <= t": rows incl. range_rows, plus the
+   objective row. *)
+Definition check_no_relaxed_ps (I : inst) (A : profile) (W : list proj) (exh lb : bool) (k : rkind)
+           (ys : list Q) : bool :=
+  negb (Qleb (tcost I W) (budget I))
+  || (exh && negb (is_exhaustiveb I W))
+  || (Nat.ltb 0 (length A)
+      && check_farkas pvar_eqb (ps_vars_g I A true (Some k)) (ps_rows_g I A W true lb (Some k) false) ys).
+Definition check_objective_lower (I : inst) (A : profile) (W : list proj) (exh lb : bool) (k : rkind)
+           (t : Q) (ys : list Q) : bool :=
+  negb (Qleb (tcost I W) (budget I))
+  || (exh && negb (is_exhaustiveb I W))
+  || (Nat.ltb 0 (length A)
+      && check_farkas pvar_eqb (ps_vars_g I A true (Some k))
+           (ps_rows_g I A W true lb (Some k) true ++ [objective_row I k t]) ys).
